@@ -81,3 +81,11 @@ def _c13(prop, tier, seed, replay):
 
 
 CHECKS["C13"] = _c13
+
+
+def _c04(prop, tier, seed, replay):
+    import fam_pure
+    return seqfamily.check(prop, fam_pure.enrol_family(), tier, seed, replay)
+
+
+CHECKS["C04"] = _c04
